@@ -511,6 +511,7 @@ def run(ctx):
     ctx.ob('C12.k', f'{ac_.qual}._control_keys_:test-before-record', ok, '' if ok else 'the measured-keys set already contains the keys of the operation whose controls are being '
            'tested: a sub-circuit that reads key a from outside and then measures a itself reports no external control', ac_.mod.rel, ck.lineno)
     _scope_and_map_rules(ctx, repo)
+    _key_protocol_siblings(ctx, repo)
 
 
 def _is_carrying(v, ci, builders, params, assigned, depth=0):
@@ -658,3 +659,27 @@ def _scope_and_map_rules(ctx, repo):
             ctx.ob('C12.m', f'{co.qual}.with_qubit_mapping:old#{i}:new#{j}', ok, '' if ok else
                    f'stored map {old} followed by {new} must give {want}; the operation is rebuilt with {got} (remapping twice is not the same as remapping once with the composition)',
                    co.mod.rel, wfn.lineno)
+
+
+def _key_protocol_siblings(ctx, repo):
+    """C12.n - the three key-rewriting protocols travel together."""
+    ctx.decided.append('C12.n every class that rewrites measurement keys under key mapping (_with_measurement_key_mapping_) also rewrites them under path prefixing and rescoping '
+                       '(_with_key_path_prefix_, _with_rescoped_keys_): a wrapper that forwards only one of them leaves its contents unscoped inside repeated sub-circuits')
+    ctx.rule('C12.n', 'key protocols come as a set: each class of cirq (outside testing and the protocol documentation classes) that defines _with_measurement_key_mapping_ has - itself or '
+             'through its bases - _with_key_path_prefix_ and _with_rescoped_keys_', floor=10, style='COH')
+    n = 0
+    for ci in sorted(repo.classes.values(), key=lambda c: c.qual):
+        if ci.mod.rel.endswith('_test.py') or '.testing.' in ci.qual or ci.name.startswith('Supports'):
+            continue
+        if '_with_measurement_key_mapping_' not in ci.methods:
+            continue
+        n += 1
+        have = set()
+        for k in repo.mro(ci):
+            have |= set(k.methods)
+        miss = [p for p in ('_with_key_path_prefix_', '_with_rescoped_keys_') if p not in have]
+        ctx.ob('C12.n', f'{ci.qual}:key-protocol-set', not miss, '' if not miss else
+               f'{ci.name} maps measurement keys but has no {miss}: inside a CircuitOperation with repetition ids or a parent path its keys stay unscoped, so the operation reports other keys '
+               'than its unrolled circuit records', ci.mod.rel, ci.node.lineno)
+    if n == 0:
+        raise AnalysisError('C12.n: no class with _with_measurement_key_mapping_ found')
